@@ -5,6 +5,7 @@ sreconcile_base_spfs explored on every feasible cost ordering (including the slo
 on each path z3 proves the returned total <= every (valid mapping x root order x labelling)
 form of the independent oracle; empty result iff no root order is compatible with the leaves.
 """
+import itertools
 import random
 import sys
 
@@ -26,13 +27,15 @@ def main(argv=None):
                  for _ in range(140)]
         mid = [SR.random_super_input(rng, 4, rng.randint(2, 3), 3, True, rootsyn_p=0.2) for _ in range(24)]
         big = []
-        budget, mp, bs = 100, 6000, 200.0
+        deep = [SR.random_super_input(rng, rng.randint(4, 5), rng.randint(3, 4), rng.randint(3, 4), True, rootsyn_p=0.1, consistent_p=0.9) for _ in range(120)]
+        budget, mp, bs = 150, 6000, 200.0
     else:
         small = list(SR.exhaustive_super_inputs(3, 2, 2, True)) + list(SR.exhaustive_super_inputs(2, 2, 3, True))
         small += [SR.random_super_input(rng, 3, rng.randint(2, 3), 3, True, rootsyn_p=0.25, consistent_p=0.7) for _ in range(400)]
         mid = [SR.random_super_input(rng, 4, rng.randint(2, 3), 3, True, rootsyn_p=0.2) for _ in range(200)]
         big = [SR.random_super_input(rng, rng.randint(4, 5), rng.randint(3, 4), 4, True, rootsyn_p=0.2) for _ in range(50)]
-        budget, mp, bs = 1800, 30000, 900.0
+        deep = [SR.random_super_input(rng, rng.randint(4, 5), rng.randint(3, 4), rng.randint(3, 4), True, rootsyn_p=0.1, consistent_p=0.9) for _ in range(1200)]
+        budget, mp, bs = 3000, 30000, 900.0
     hist = [SR.random_super_input(rng, 3, rng.randint(2, 3), rng.randint(2, 3), True, consistent_p=0.9) for _ in range(10 if tier == "quick" else 80)]
     sections = [
         ("call history: the same solver called earlier in the same interpreter (same input at default costs, sibling input at other costs), "
@@ -40,11 +43,26 @@ def main(argv=None):
         ("2-3 leaves, five symbolic costs", [(d, SR.runs_for(algos, ["any", "all"], FLAGS, "full")) for d in small], tier == "thorough"),
         ("4 leaves, five symbolic costs", [(d, SR.runs_for(algos, ["any", "all"], FLAGS, "full")) for d in mid], False),
         ("4-5 leaves x 4 families, dup/hgt/sloss symbolic (spe=0, floss=1)", [(d, SR.runs_for(algos, ["any"], FLAGS, "dhs")) for d in big], False),
+        ("4-5 leaves x 3-4 families (90% mutually consistent orders), dup/hgt/sloss symbolic (spe=0, floss=1), finite transfer cost",
+         [(d, SR.runs_for(algos, ["any"], FLAGS, "dhs", inf_too=False)) for d in deep], False),
     ]
+    if tier == "thorough":
+        # one structural family completely: caterpillar object tree on 4 leaves, each leaf in its own species of a caterpillar species tree,
+        # every non-empty subset of 4 families (in one common order) on every leaf: 15^4 inputs
+        fam4 = "abcd"
+        subs = [[f for f, b in zip(fam4, bits) if b] for bits in itertools.product([0, 1], repeat=4) if any(bits)]
+        base = {"ot": ((("g0", "g1"), "g2"), "g3"), "st": ((("A", "B"), "C"), "D"), "leafmap": {"g0": "A", "g1": "B", "g2": "C", "g3": "D"}}
+        family = [dict(base, leafsyn=dict(zip(["g0", "g1", "g2", "g3"], combo))) for combo in itertools.product(subs, repeat=4)]
+        sections.append(("complete family: 4-leaf caterpillar, identity leaf assignment, every 4-family leaf content (15^4 inputs), dup/sloss symbolic",
+                         [(d, [{"algo": "ext_spfs", "policy": "any", "sym": ["dup", "sloss"], "fixed": {"spe": 0, "floss": 1, "hgt": 1},
+                                "flags": sorted(FLAGS), "coherent": True}]) for d in family], True))
     sections = [s for s in sections if s[1]]
     return sr_main.run(
         PROP, tier, seed, sections, ["ordered", "dp"],
-        bounds={"inputs": "quick: 140 seeded 2-3-leaf inputs (1-3 species leaves, 1-3 families, 30% mutually inconsistent orders, 25% with a prescribed "
+        bounds={"deep": "quick 120 / thorough 1200 seeded 4-5-leaf x 3-4-family inputs (dup, hgt, sloss symbolic); thorough: the complete 15^4 family "
+                        "(4-leaf caterpillar, identity assignment, every leaf content over 4 families in one order) with dup, sloss symbolic",
+                "call history": "quick 10 / thorough 80 seeded 3-leaf inputs explored after earlier concrete calls in a fresh interpreter",
+                "inputs": "quick: 140 seeded 2-3-leaf inputs (1-3 species leaves, 1-3 families, 30% mutually inconsistent orders, 25% with a prescribed "
                           "root order) + 24 seeded 4-leaf inputs; thorough: every 3-leaf/2-species/2-family and 2-leaf/2-species/3-family input (every leaf "
                           "assignment, every duplicate-free leaf sequence) + 400 seeded 3-leaf + 200 seeded 4-leaf + 50 seeded 4-5-leaf/4-family inputs",
                 "costs": "spe, dup, hgt, floss, sloss: all non-negative integers with spe + 2*sloss <= dup + 2*floss (sloss = 0 included); second run "
